@@ -658,6 +658,10 @@ def mix_profile(env, quant=True):
     AIAU = ("Array", INT, ("Array", ("Sort", "U", ()), INT))
     p.leaf(AIT, p.sym("N1", AIT), p.sym("N2", AIT))
     p.leaf(AIAU, p.sym("K1", AIAU), p.sym("K2", AIAU))
+    # a declared sort that merely shares its name with a built-in one, used next to the built-in
+    UI = ("Sort", "Int", ())
+    p.leaf(UI, p.sym("ui", UI), p.sym("uj", UI))
+    p.op("eqI", [UI, UI], BOOL, lambda m, a, b: m.Equals(a, b))
     p.op("eqT", [AIT, AIT], BOOL, lambda m, a, b: m.Equals(a, b))
     p.op("eqU", [AIAU, AIAU], BOOL, lambda m, a, b: m.Equals(a, b))
     p.op("not", [BOOL], BOOL, lambda m, a: m.Not(a))
